@@ -1,7 +1,7 @@
 (* Rational helpers shared by the models: min/max as booleans tests (computable), floor, ceiling,
    round-half-even, and the constant-division normalisation tactic for lra. *)
 From Coq Require Import QArith Qround ZArith Lia Lqa.
-Open Scope Q_scope.
+Local Open Scope Q_scope.
 
 Definition qmin (a b : Q) : Q := if Qle_bool a b then a else b.
 Definition qmax (a b : Q) : Q := if Qle_bool a b then b else a.
